@@ -721,3 +721,89 @@ func init() {
 		},
 		nontrivial: func(args []string, out string) bool { return args[1] != "p:" }})
 }
+
+// ---------------------------------------------------------------- bind.stmt: placeholders in statement slots
+
+// bindStmtTemplates: statement slots that take one token: counts, durations, names, strings.
+var bindStmtTemplates = []string{
+	"SELECT value FROM cpu LIMIT $p", "SELECT value FROM cpu OFFSET $p", "SELECT value FROM cpu GROUP BY host SLIMIT $p", "SELECT value FROM cpu GROUP BY host SOFFSET $p",
+	"SELECT value FROM cpu LIMIT $p OFFSET $q", "SHOW MEASUREMENTS LIMIT $p OFFSET $q", "SHOW TAG KEYS FROM cpu LIMIT $p", "SHOW SERIES LIMIT $p",
+	"SELECT mean(value) FROM cpu WHERE time > now() - $p GROUP BY time($q)", "SELECT mean(value) FROM cpu GROUP BY time($p, $q)", "SELECT value FROM cpu WHERE host = $p AND value > $q",
+	"CREATE RETENTION POLICY rp ON db DURATION $p REPLICATION $q", "ALTER RETENTION POLICY rp ON db SHARD DURATION $p", "CREATE DATABASE db WITH DURATION $p REPLICATION $q",
+	"KILL QUERY $p", "DROP SHARD $p", "SELECT value FROM $p", "SELECT $p FROM cpu", "DROP MEASUREMENT $p", "SHOW TAG VALUES WITH KEY = $p", "SELECT value FROM cpu fill($p)", "SELECT value FROM cpu TZ($p)",
+}
+
+func genBindStmt(r *rand.Rand, n int, emit func(args ...string)) {
+	vals := []interface{}{int64(0), int64(1), int64(5), int64(-1), int64(-5), int64(math.MinInt64), int64(math.MaxInt64), int64(2147483647), int64(2147483648),
+		1.5, -2.5, true, "cpu", "a b", "it's", "UTC", "10s", "", map[string]interface{}{"duration": "10s"}, map[string]interface{}{"duration": "-1h"}, map[string]interface{}{"duration": "1h30m"},
+		map[string]interface{}{"identifier": "host"}, map[string]interface{}{"identifier": "a b"}, map[string]interface{}{"integer": int64(-3)}, map[string]interface{}{"integer": int64(3)},
+		map[string]interface{}{"string": "x"}, map[string]interface{}{"float": 2.0}, map[string]interface{}{"regex": "^a"}, map[string]interface{}{"boolean": true}}
+	for _, t := range bindStmtTemplates {
+		for _, v := range vals {
+			emit(stmtCase(t, map[string]interface{}{"p": v, "q": int64(2)}, false)...)
+		}
+		emit(stmtCase(t, map[string]interface{}{"p": int64(3)}, false)...)
+		emit(stmtCase(t, map[string]interface{}{}, false)...)
+	}
+	for i := 0; i < n; i++ {
+		t := bindStmtTemplates[r.Intn(len(bindStmtTemplates))]
+		emit(stmtCase(t, map[string]interface{}{"p": vals[r.Intn(len(vals))], "q": vals[r.Intn(len(vals))]}, false)...)
+	}
+}
+
+// propBindStmt: the statement with a placeholder means what the statement with the value written out means:
+// whenever the value is writable as one token at that place (inlineTemplate), both parse to the same tree or
+// both are rejected (round-6 seeded change C07-2: a negative bound count was silently read as no LIMIT).
+func propBindStmt(args []string) string {
+	text, params, ok := decStmtArgs(args)
+	if !ok {
+		return "skip"
+	}
+	st, perr := newStmtParser(text, params).ParseStatement()
+	if perr != nil && isOracleError(perr) {
+		return "skip"
+	}
+	if perr == nil && st == nil {
+		return fmt.Sprintf("%q with %v: nil statement and nil error", text, params)
+	}
+	// a count never comes out negative or different from a bound integer
+	if sel, ok := st.(*influxql.SelectStatement); ok && perr == nil {
+		for _, c := range []struct {
+			kw  string
+			got int
+		}{{" LIMIT $p", sel.Limit}, {" OFFSET $p", sel.Offset}, {" SLIMIT $p", sel.SLimit}, {" SOFFSET $p", sel.SOffset}} {
+			if !strings.Contains(text, c.kw) {
+				continue
+			}
+			if iv, isInt := influxql.BindValue(params["p"]).(influxql.IntegerValue); isInt && int64(c.got) != int64(iv) {
+				return fmt.Sprintf("%q with p = %d is accepted with %s = %d", text, int64(iv), strings.Fields(c.kw)[0], c.got)
+			}
+		}
+	}
+	inl, ok := inlineTemplate(text, params)
+	if !ok {
+		return ""
+	}
+	st2, perr2 := newStmtParser(inl, nil).ParseStatement()
+	if perr2 != nil && isOracleError(perr2) {
+		return ""
+	}
+	switch {
+	case perr != nil && perr2 != nil:
+		return ""
+	case perr2 != nil:
+		return fmt.Sprintf("%q with %v parses although the inlined text %q is rejected: %v", text, params, inl, perr2)
+	case perr != nil:
+		return fmt.Sprintf("%q with %v is rejected (%v) although the inlined text %q parses", text, params, perr, inl)
+	}
+	if a, b := sexpStatement(st), sexpStatement(st2); a != b {
+		return fmt.Sprintf("%q with %v parses to %s, the inlined text %q to %s", text, params, a, inl, b)
+	}
+	return ""
+}
+
+func init() {
+	register(&stream{name: "bind.stmt", gen: genBindStmt, impl: implParseStmt, prop: propBindStmt,
+		class:      func(args []string, out string) string { return out[:2] },
+		nontrivial: func(args []string, out string) bool { return strings.HasPrefix(out, "ok") }})
+}
